@@ -12,7 +12,7 @@ from lib import vlib
 def run(ctx):
     quick = ctx.tier == "quick"
     ctx.build_harness()
-    ctx.tlc_must_pass("MC_Numbers", "MC_Numbers", workers=1, timeout=600)
+    ctx.tlc_must_pass("MC_Numbers", "MC_Numbers", timeout=600)
     shards = 16
     nrand = 6000 if quick else 400000
     p, _ = ctx.run_harness(["drive-c08", "-out", ctx.tmp, "-shards", str(shards),
